@@ -155,9 +155,17 @@ impl TimeZone {
             // 2. If parseResult.[[OffsetMinutes]] is not empty, return parseResult.[[OffsetMinutes]] × (60 × 10**9).
             Self::UtcOffset(offset) => Ok(i128::from(offset.0) * 60_000_000_000i128),
             // 3. Return GetNamedTimeZoneOffsetNanoseconds(parseResult.[[Name]], epochNs).
-            Self::IanaIdentifier(identifier) => provider
-                .get_named_tz_offset_nanoseconds(identifier, utc_epoch)
-                .map(|offset| i128::from(offset.offset) * 1_000_000_000),
+            Self::IanaIdentifier(identifier) => {
+                let offset = provider.get_named_tz_offset_nanoseconds(identifier, utc_epoch)?;
+                let nanoseconds = i128::from(offset.offset) * 1_000_000_000;
+                // A UTC offset is always shorter than a day; a provider reporting
+                // anything else is in error.
+                if nanoseconds.abs() >= i128::from(crate::NS_PER_DAY) {
+                    return Err(TemporalError::range()
+                        .with_message("time zone offset must be less than a day."));
+                }
+                Ok(nanoseconds)
+            }
         }
     }
 
